@@ -483,8 +483,8 @@ def rule_prune_degenerate(chk, prog):
 
 def run(chk):
     prog = chk.load()
-    rule_alpha(chk, prog)
-    rule_solve(chk, prog)
-    rule_corner_tables(chk, prog)
-    rule_prune(chk, prog)
-    rule_prune_degenerate(chk, prog)
+    chk.guard(rule_alpha, chk, prog)
+    chk.guard(rule_solve, chk, prog)
+    chk.guard(rule_corner_tables, chk, prog)
+    chk.guard(rule_prune, chk, prog)
+    chk.guard(rule_prune_degenerate, chk, prog)
